@@ -401,11 +401,22 @@ fn strip_aggs(e: &E) -> E {
     match e {
         E::Agg(_, inner, _) => strip_aggs(inner),
         E::CountStar => E::Int(1),
+        // SQLite folds a constant right operand of IS into TRUE / FALSE and then applies the *truth test* `x IS TRUE`
+        // (`p IS (0 IS NOT NULL)` behaves like `p IS TRUE`), while the same operand computed from a bound value is compared
+        // as a number: the literal and the bound form legitimately differ in the engine. Constant right operands other than
+        // NULL / a plain boolean are therefore kept out of the executable domain.
+        E::Bin(l, op @ (Op::Is | Op::IsNot), r) if !matches!(**r, E::Null | E::Bool(_)) && !has_column(r) => {
+            E::Bin(Box::new(strip_aggs(l)), *op, Box::new(E::Null))
+        }
         // see rescope(): JSON operators and MATCH are not executable deterministically
         E::Bin(l, Op::SqGetJson | Op::SqCastJson, r) => E::Bin(Box::new(strip_aggs(l)), Op::Sub, Box::new(strip_aggs(r))),
         E::Bin(l, Op::SqMatch, r) => E::Bin(Box::new(strip_aggs(l)), Op::SqGlob, Box::new(strip_aggs(r))),
         other => other.map_children(&mut |_, c| strip_aggs(c)),
     }
+}
+
+fn has_column(e: &E) -> bool {
+    matches!(e, E::Col(_) | E::TCol(_) | E::QCol(..) | E::AliasRef(_) | E::Exists | E::ScalarSub | E::InSub { .. }) || e.children().iter().any(|c| has_column(c))
 }
 
 fn has_agg(e: &E) -> bool {
